@@ -104,6 +104,7 @@ type interpreter struct {
 	locIDs             map[*value]int
 	rndNames           int
 	mon                *writeMon
+	replay             *replayState
 	sliceData          map[*value][]value
 	files              map[*value]int
 	fileData           map[int][][]value
